@@ -225,7 +225,7 @@ class Env:
                         why = "serialized_twice"
                     elif not _same(v, {"ser": VAL[n]}):
                         why = "serialized_value"
-                elif n == "hv":
+                elif n in ("hv", "result"):
                     pass
                 elif n == "n":
                     if v != 3:
@@ -519,6 +519,27 @@ class Runner:
                     env.acts[op["a"] - 1].log(message_type=op["ty"], mf=VAL["mf"], **env.collide())
             elif name == "AddSuccess":
                 env.acts[op["a"] - 1].add_success_fields(**{op["f"]: VAL[op["f"]]})
+            elif name == "LogCall":
+                # a function decorated with log_call (action type "LC"), whose body logs one message
+                res = object()
+                boom = env.make_exc("exc") if op["o"] != "ok" else None
+
+                def lc_body(x, y=VAL["y"]):
+                    log_message(message_type="m", mf=VAL["mf"])
+                    if boom is not None:
+                        raise boom
+                    return res
+                lc = eliot.log_call(action_type="LC")(lc_body)
+                env.acts.append(None)                  # the action lives inside the wrapper: the program has no handle on it
+                try:
+                    r = lc(VAL["x"])
+                    if r is not res:
+                        v = "wrongret"
+                except BaseException as e:
+                    if boom is not None and e is boom:
+                        v = "app"
+                    else:
+                        raise
             elif name == "RawWrite":
                 import uuid, time, copy
                 d = {"task_uuid": str(uuid.uuid4()), "task_level": [1], "timestamp": time.time(), "message_type": "m", "mf": copy.deepcopy(VAL["mf"])}
